@@ -81,7 +81,13 @@ func cleanString(str string) string {
 	if str[0] == byte(0) {
 		str = str[1:]
 	}
+	if len(str) < 1 {
+		return str
+	}
 	if str[len(str)-1] == byte(0) {
+		if len(str) < 2 {
+			return ""
+		}
 		str = str[0 : len(str)-2]
 	}
 	return str
